@@ -585,6 +585,11 @@ def _(E, m, a, c0):
     return UF_SQRT(x)
 def zpow(E, x, n):
     """x^n for n >= 0: uninterpreted, with the algebraic facts the callers rely on"""
+    xs, ns = z3.simplify(x), z3.simplify(n)
+    if z3.is_int_value(xs):
+        # constant base (10^k in the decimal parser): exact when the exponent is, or can be made, concrete and small
+        if not z3.is_int_value(ns) and not E.feasible(z3.Or(n > 128, n < 0)): ns = z3.IntVal(E.concretize(n, 0, 128))
+        if z3.is_int_value(ns) and 0 <= ns.as_long() <= 4096: return z3.IntVal(xs.as_long() ** ns.as_long())
     r = UF_POW(x, n)
     E.assume(z3.Implies(n == 0, r == 1), z3.Implies(n == 1, r == x), z3.Implies(n > 0, (r == 0) == (x == 0)))
     return r
